@@ -395,10 +395,17 @@ def gen_case(seed, tier, i):
     editors = []
     for b in range(nbuf):
         alone = rng.random() < 0.25
+        corpus = None
+        if not alone and rng.random() < 0.2:
+            # a slice of the repository's completion fixtures: real-world shapes (decorators,
+            # descriptors, nested scopes, comprehensions, broken code) under the same edit ops
+            corpus = world.corpus_slice(rng, 30, 90)[1]
         ed = Editor(driver.rng_for(seed, 'C08', tier, 'ed', i, b),
+                    corpus.split('\n')[:-1] if corpus else
                     gen_standalone_text('S%d' % b) if alone else gen_buffer_text(rng, list(w.mods), 'B%d' % b),
                     list(w.mods), w.files)
         ed.standalone = alone
+        ed.corpus = bool(corpus)
         if alone and nbuf > 1 and rng.random() < 0.5:
             pass
         editors.append(ed)
